@@ -6,6 +6,9 @@ def body(chk):
     run_prefix.obligations(chk, 'C08', which=('fail_fast',))
     ingest.obligations(chk, 'C08')
     sched_worlds.run(chk, 'C08')
+    # what execute() acts on: every kind of final failure (step, hook, World) is reported as failed by the attempt
+    from checks import attempt_driver
+    attempt_driver.run(chk, 'C08')
     # what closes the run after fail-fast cut it short: every bracket still open gets its Finished
     c03.finish_all(chk, 'C08')
     # CLI options installed through Cucumber::with_cli() survive the builder methods called afterwards
